@@ -13,10 +13,12 @@ def build_module(imported_memory, with_start, shared=False):
     started = m.import_func("env", "started", [I32, I32], [])
     if imported_memory:
         m.import_memory("env", "mem", 1, 2)
+        m.import_table("env", "tab", 4, 4)                 # imported memory variant = imported table variant
     gb = m.import_global("env", "base", I32, False)
     gq = m.import_global("env", "big", I64, False)
     if not imported_memory:
         m.memory(1, 3, shared=shared, export="mem")
+        m.table(4, 6)
     else:
         m.exports.append(("mem", 2, 0))
     g_cnt = m.global_(I32, True, W.const_expr(I32, 5))
@@ -25,6 +27,8 @@ def build_module(imported_memory, with_start, shared=False):
     g_f64 = m.global_(F64, False, W.const_expr(F64, F64BITS))
     g_imp = m.global_(I32, False, W.ins("global.get", gb))
     g_imp64 = m.global_(I64, True, W.ins("global.get", gq))
+    m.global_(I32, True, W.const_expr(I32, 0))           # zero initialisers: set like any other (the embedder's instance struct is not zeroed)
+    m.global_(I64, False, W.const_expr(I64, 0))
     L = lambda i: W.ins("local.get", i)
     fstart = m.func([], [], W.ins("i32.const", 10) + W.ins("i32.load8_u", 0, 0) + W.ins("global.get", g_imp) + W.ins("call", started))
     if with_start:
@@ -35,6 +39,7 @@ def build_module(imported_memory, with_start, shared=False):
     m.func([], [I64], W.ins("global.get", g_i64) + W.ins("global.get", g_imp64) + W.ins("i64.xor"), export="g64")
     m.func([], [F32], W.ins("global.get", g_f32), export="gf32")
     m.func([], [F64], W.ins("global.get", g_f64), export="gf64")
+    m.elem(W.const_expr(I32, 1), [fstart + 1, fstart + 2])  # active element segment into the (defined or imported) table 0
     m.data(W.const_expr(I32, SEGS[0][0]), SEGS[0][1])
     m.data(b"", b"PASSIVE", flag=1)                        # a passive segment between active ones (blob offsets in the external data-segment modes)
     for off, payload in SEGS[1:]:
@@ -55,10 +60,18 @@ static int g_started_calls; static void* g_started_inst; static U32 g_started_a,
 void env__started(void* inst, U32 a, U32 b);
 #include "MODNAME.c"
 static MODNAMEInstance inst, inst2;
+/* the embedder's instance object is uninitialised storage (the repository's examples declare it on the stack) */
+#ifdef VERIF_NATIVE
+#define HAVOC_INSTANCE(x) memset(&(x), 0xA5, sizeof(x))
+#else
+#define HAVOC_INSTANCE(x) do { MODNAMEInstance fresh_; (x) = fresh_; } while (0)
+#endif
+static wasmFunc g_slots[4]; static wasmTable g_hosttab; static void sentinel(void) { }
 static wasmMemory g_hostmem; static U8* g_hostdata; static U32 g_base; static U64 g_big; static int g_resolve_calls;
 static void* resolve(const char* module, const char* name) {
     g_resolve_calls++;
     if (strcmp(module, "env") == 0 && strcmp(name, "mem") == 0) return &g_hostmem;
+    if (strcmp(module, "env") == 0 && strcmp(name, "tab") == 0) return &g_hosttab;
     if (strcmp(module, "env") == 0 && strcmp(name, "base") == 0) return &g_base;
     if (strcmp(module, "env") == 0 && strcmp(name, "big") == 0) return &g_big;
     return 0;
@@ -78,6 +91,7 @@ static void host_setup(U32 base, U64 big) {
     g_base = base; g_big = big; g_started_calls = 0; g_resolve_calls = 0; g_state_complete_at_start = 0; g_libm_calls = 0; g_spec_trap = SPEC_NOTRAP;
 #ifdef IMPORTED_MEMORY
     g_hostdata = (U8*)calloc(65536, 1); ASSUME(g_hostdata != 0);
+    { int i; for (i = 0; i < 4; i++) g_slots[i] = (wasmFunc)sentinel; g_hosttab.data = g_slots; g_hosttab.size = 4; g_hosttab.maxSize = 4; }
     g_hostmem.data = g_hostdata; g_hostmem.size = 65536; g_hostmem.pages = 1; g_hostmem.maxPages = 2; g_hostmem.shared = 0; g_hostmem.futex = 0; g_hostmem.futexFree = 0;
 #endif
 }
@@ -91,7 +105,7 @@ static U8 expected_byte(U32 k, U32 base) {
     return v;
 }
 void h_memory(void) { ND(U32, base); ND(U64, big); ND(U32, k); ASSUME(base >= 20 && base <= 23 && k < 65536); host_setup(base, big);
-    MODNAMEInstantiate(&inst, resolve);
+    HAVOC_INSTANCE(inst); MODNAMEInstantiate(&inst, resolve);
 #ifdef WASM_THREADS_PTHREADS
     /* a shared memory reserves its declared maximum (so that growth never moves it); its CURRENT size is the declared minimum */
     OBL(MEMP(inst) != 0 && MEMP(inst)->pages == 1 && MEMP(inst)->shared && MEMP(inst)->size == 3u * 65536u, "instantiate: a shared memory 0 reports its declared minimum as current size");
@@ -105,17 +119,30 @@ void h_memory(void) { ND(U32, base); ND(U64, big); ND(U32, k); ASSUME(base >= 20
     OBL(MEMP(inst)->maxPages == 3, "instantiate: the declared maximum is recorded");
 #endif
     CANARY("memory"); }
+void h_table(void) { ND(U32, base); ND(U64, big); ND(U32, k); ASSUME(base >= 20 && base <= 23 && k < 4); host_setup(base, big);
+    HAVOC_INSTANCE(inst); MODNAMEInstantiate(&inst, resolve);
+#ifdef IMPORTED_MEMORY
+    OBL(inst.env__tab == &g_hosttab, "instantiate: the imported table is the one the resolver returned");
+    OBL(g_slots[1] != (wasmFunc)sentinel && g_slots[2] != (wasmFunc)sentinel && g_slots[1] != g_slots[2] && g_slots[1] != 0 && g_slots[2] != 0, "instantiate: active element segments are written into an IMPORTED table too");
+    OBL((k == 1 || k == 2) || g_slots[k] == (wasmFunc)sentinel, "instantiate: no other slot of the imported table is written");
+#else
+    OBL(inst.t0.size == 4 && inst.t0.maxSize == 6 && inst.t0.data != 0, "instantiate: a defined table has its declared minimum size and records its maximum");
+    OBL(inst.t0.data[1] != 0 && inst.t0.data[2] != 0 && inst.t0.data[1] != inst.t0.data[2], "instantiate: active element segments are written to their offset");
+    OBL((k == 1 || k == 2) || inst.t0.data[k] == 0, "instantiate: every other entry of a defined table is null");
+#endif
+    CANARY("table"); }
 void h_globals(void) { ND(U32, base); ND(U64, big); ASSUME(base >= 20 && base <= 23); host_setup(base, big);
-    MODNAMEInstantiate(&inst, resolve);
+    HAVOC_INSTANCE(inst); MODNAMEInstantiate(&inst, resolve);
     OBL(inst.g2 == 5u && inst.g3 == 0x8000000000000001ull, "instantiate: integer globals hold their constant initialisers");
     OBL(vh_f32bits(inst.g4) == F32BITSu && vh_f64bits(inst.g5) == F64BITSull, "instantiate: float globals hold the exact bit pattern (NaN payloads) of their initialisers");
+    OBL(inst.g8 == 0 && inst.g9 == 0, "instantiate: globals with a zero initialiser are zero (whatever the instance storage held before)");
     OBL(inst.g6 == base && inst.g7 == big, "instantiate: globals initialised by global.get of an imported global take the value the resolver's object holds");
     OBL(inst.env__base == &g_base && inst.env__big == &g_big, "instantiate: imported globals are bound to what the resolver returned");
     OBL(MODNAME_g64(&inst) == (0x8000000000000001ull ^ big) && vh_f32bits(MODNAME_gf32(&inst)) == F32BITSu && vh_f64bits(MODNAME_gf64(&inst)) == F64BITSull,
         "instantiate: exported functions are reachable under <module>_<name> and observe the initial state");
     CANARY("globals"); }
 void h_start(void) { ND(U32, base); ND(U64, big); ASSUME(base >= 20 && base <= 23); host_setup(base, big);
-    MODNAMEInstantiate(&inst, resolve);
+    HAVOC_INSTANCE(inst); MODNAMEInstantiate(&inst, resolve);
 #ifdef WITH_START
     OBL(g_started_calls == 1, "instantiate: the start function runs exactly once");
     OBL(g_started_inst == (void*)&inst && g_started_a == 'X' && g_started_b == base, "instantiate: the start function runs on this instance and observes initialised memory and globals");
@@ -125,8 +152,8 @@ void h_start(void) { ND(U32, base); ND(U64, big); ASSUME(base >= 20 && base <= 2
 #endif
     CANARY("start"); }
 void h_persist_two_instances(void) { ND(U32, base); ND(U64, big); ND(U32, addr); U32 a, b, c; ASSUME(base >= 20 && base <= 23 && addr < 65536); host_setup(base, big);
-    MODNAMEInstantiate(&inst, resolve);
-    MODNAMEInstantiate(&inst2, resolve);
+    HAVOC_INSTANCE(inst); MODNAMEInstantiate(&inst, resolve);
+    HAVOC_INSTANCE(inst2); MODNAMEInstantiate(&inst2, resolve);
     a = MODNAME_inc(&inst); b = MODNAME_inc(&inst); c = MODNAME_inc(&inst2);
     OBL(a == 6 && b == 7, "mutable state persists across calls within an instance");
     OBL(c == 6, "a second instance has its own copy of every defined global");
@@ -164,7 +191,7 @@ def variant_jobs(ctx, tag, impmem, start, shared, opts=(), prefix="G", only=None
     hp = os.path.join(d, "gh_%s.c" % modname)
     with open(hp, "w") as f:
         f.write(text)
-    hs = [("h_memory", "InitMemories / data segments"), ("h_globals", "InitGlobals / InitImports / export wrappers"), ("h_start", "start function"),
+    hs = [("h_memory", "InitMemories / data segments"), ("h_table", "InitTables / element segments"), ("h_globals", "InitGlobals / InitImports / export wrappers"), ("h_start", "start function"),
           ("h_persist_two_instances", "instances")]
     if tag == "nostart":
         hs = [("h_start", "start function")]
